@@ -438,9 +438,13 @@ type SpecFunc struct {
 }
 
 type Axiom struct {
-	Name string
-	Expr *SNode
-	Src  string
+	Name  string
+	Expr  *SNode
+	Src   string
+	Lemma bool     // proved as its own obligation before it is assumed
+	Props []string // lemma[C17]: only for these properties
+	File  string
+	Line  int
 }
 
 type GhostVar struct {
@@ -554,16 +558,20 @@ func (ss *SpecSet) ParseSpecText(file string, lines []string, lineNos []int) err
 			sf.Rec = rec
 			ss.Funcs[sf.Name] = sf
 			cur, curDef = nil, nil
-		case "axiom":
+		case "axiom", "lemma":
 			idx := strings.Index(rest, ":")
 			if idx < 0 {
-				return fail(fmt.Errorf("axiom needs 'name: expr'"))
+				return fail(fmt.Errorf("%s needs 'name: expr'", word))
 			}
 			e, err := ParseSpecExpr(strings.TrimSpace(rest[idx+1:]))
 			if err != nil {
 				return fail(err)
 			}
-			ss.Axioms = append(ss.Axioms, &Axiom{Name: strings.TrimSpace(rest[:idx]), Expr: e, Src: rest[idx+1:]})
+			ax := &Axiom{Name: strings.TrimSpace(rest[:idx]), Expr: e, Src: rest[idx+1:], Lemma: word == "lemma", File: file, Line: ln}
+			if tag != "" {
+				ax.Props = strings.Split(tag, ",")
+			}
+			ss.Axioms = append(ss.Axioms, ax)
 			cur, curDef = nil, nil
 		case "strpred":
 			// strpred name containsfold "text" | contains "text" | containsany "chars"
